@@ -69,12 +69,26 @@ def run_ops(rep, tier):
     from autograd.tracer import isbox, getval
     x0 = onp.array([[0.5, -1.5, 2.0], [2.0, 0.25, -3.0]])
     c = onp.array([0.5, 1.0, -3.0])
+    _P3, _Q3 = onp.arange(20.0).reshape(2, 5, 2) * 0.25 - 1.0, onp.arange(24.0).reshape(2, 3, 4) * 0.125
+    _P2, _v2 = onp.arange(8.0).reshape(4, 2) - 2.5, onp.array([1.5, -0.5])
     binops = [("add", op.add), ("sub", op.sub), ("mul", op.mul), ("truediv", op.truediv), ("pow", lambda a, b: a ** 2 if not isinstance(b, onp.ndarray) or isbox(a) or True else a), ("mod", op.mod),
               ("lt", op.lt), ("le", op.le), ("gt", op.gt), ("ge", op.ge), ("eq", op.eq), ("ne", op.ne)]
     unops = [("neg", op.neg), ("abs", abs), ("T", lambda a: a.T), ("shape", lambda a: a.shape), ("ndim", lambda a: a.ndim), ("size", lambda a: a.size), ("dtype", lambda a: a.dtype), ("len", len),
              ("getitem", lambda a: a[1, ::-1]), ("iter", lambda a: [r for r in a][1]), ("bool-of-element", lambda a: bool(a[0, 0] > 0)), ("float()", lambda a: float(a[0, 0]) if not isbox(a) else float(getval(a[0, 0]))),
              ("sum-method", lambda a: a.sum(axis=0)), ("mean-method", lambda a: a.mean()), ("reshape-method", lambda a: a.reshape(3, 2)), ("astype", lambda a: a.astype(onp.float32)),
              ("ravel", lambda a: a.ravel()), ("clip-method", lambda a: a.clip(-1, 1)), ("max-method", lambda a: a.max(axis=1)), ("argmax", lambda a: anp.argmax(a, axis=1)), ("round", lambda a: anp.round(a)),
+             # the same attributes / methods / reflected operators on a traced array of rank 3 (stacked operands): NumPy's rank-dependent semantics
+             ("T of rank 3", lambda a: anp.stack([a, a * 2.0, a - 1.0]).T), ("transpose() of rank 3", lambda a: anp.stack([a, a * 2.0]).transpose()),
+             ("transpose((1,2,0))", lambda a: anp.stack([a, a * 2.0]).transpose((1, 2, 0))), ("swapaxes(0,2)", lambda a: anp.stack([a, a * 2.0]).swapaxes(0, 2)),
+             ("flatten('F') of rank 3", lambda a: anp.stack([a, a * 2.0]).flatten("F")), ("ravel of rank 3", lambda a: anp.stack([a, a * 2.0]).ravel()),
+             ("squeeze of rank 3", lambda a: anp.stack([a])[:, :1].squeeze()), ("diagonal of rank 3", lambda a: anp.stack([a, a * 2.0]).diagonal(0, 1, 2)),
+             ("cumsum axis=1 rank 3", lambda a: anp.stack([a, a * 2.0]).cumsum(axis=1)), ("repeat method", lambda a: a.repeat(2, axis=1)), ("take method", lambda a: a.take([2, 0], axis=1)),
+             ("trace method", lambda a: anp.stack([a, a * 2.0]).trace()), ("mean axis tuple rank 3", lambda a: anp.stack([a, a * 2.0]).mean(axis=(0, 2))),
+             ("plain @ traced, stacked", lambda a: _P3 @ anp.stack([a, a * 2.0])), ("traced @ plain, stacked", lambda a: anp.stack([a, a * 2.0]) @ _Q3),
+             ("plain 2-D @ traced rank 3", lambda a: _P2 @ anp.stack([a, a * 2.0])), ("traced rank 3 @ plain 1-D", lambda a: anp.stack([a, a * 2.0]) @ c),
+             ("plain 1-D @ traced rank 3", lambda a: _v2 @ anp.stack([a, a * 2.0])), ("traced @ traced, stacked", lambda a: anp.stack([a, a * 2.0]) @ anp.stack([a.T, a.T])),
+             ("plain ** traced", lambda a: 2.0 ** a), ("plain / traced", lambda a: 3.0 / a), ("plain % traced", lambda a: 7.5 % anp.abs(a)), ("plain - traced rank 3", lambda a: _P3[:, :2, :1] * 0 + 1.0 - anp.stack([a, a])),
+             ("abs() builtin rank 3", lambda a: abs(anp.stack([a, -a]))), ("neg rank 3", lambda a: -anp.stack([a, a])),
              # truthiness is the truthiness of the VALUE (0-d and one-element arrays), so `if w:` / `while not w:` take the branch the plain call takes
              ("bool(zero element)", lambda a: bool(a[0, 0] * 0.0)), ("bool(nonzero element)", lambda a: bool(a[0, 1])), ("bool(1-element zero array)", lambda a: bool(a[0:1, 0] * 0.0)),
              ("bool(1-element nonzero array)", lambda a: bool(a[0:1, 1])), ("not 1-element zero array", lambda a: not (a[0:1, 0] - 0.5)), ("if 1x1 zero array", lambda a: (1 if (a[0:1, 0:1] - 0.5) else 2))]
